@@ -29,12 +29,17 @@ import numpy as np
 from harness.common import enc, B, kids, tag, is_err, to_zs, VERIF
 
 PROP = 'C01'
-GENERATORS = ['gen_memo']
+GENERATORS = ['gen_memo', 'gen_combine']
 TRUSTED = [
     'tools/gen/gen_memo.py (ast scan of the SubsetState family: memoised to_mask definitions, `op` of the composite classes, '
     'the `.copy()` of MultiOrState.to_mask); its output is compared with the live classes by the stream class_table',
-    'hand model coq/C01/Model.v of CompositeSubsetState/InvertState/MultiOrState.to_mask, memoize, copy() and the edit modes; '
+    'hand model coq/C01/Model.v of CompositeSubsetState/InvertState/MultiOrState.to_mask, memoize, copy(); '
     'numpy arrays are heap cells, `|=` is the only in-place operation modelled',
+    'tools/gen/gen_combine.py (fail-closed ast translation of SubsetState.__and__/__or__/__xor__/__invert__, combine_multiple, _combine, the operators of '
+    'Subset and SubsetGroup, the six edit modes and EditSubsetMode._combine_data into coq/gen/Gen_combine.v): Python semantics of `a & b` = type(a).__and__(a, b) '
+    '(no class of the family overrides the operators: checked), for-loops as fold_left, x[0] / x[1:] as nth_error / skipn, @contract decorators ignored, '
+    'a Subset / SubsetGroup identified with the state it holds; the translated combine_multiple, edit modes and Subset / SubsetGroup operators are the ones the '
+    'driver runs (wire tags 3, 6, 7) and are proved equal to the hand model (generated_entry_points, combine_multiple_masks)',
     'the masks of the elementary states are inputs of the model (leaf semantics are C04/C08/C09)',
 ]
 ASSUMPTIONS = [
@@ -56,12 +61,15 @@ def class_index():
 
 
 # ------------------------------------------------------------------ worlds
-def make_data(rng, ndim=None, label='d'):
+def make_data(rng, ndim=None, label='d', minsize=None):
     from glue.core import Data
     from glue.core.component import CategoricalComponent
     from glue.core.coordinates import IdentityCoordinates, AffineCoordinates
     ndim = ndim or rng.choice([1, 1, 2, 2, 3])
     shape = tuple(rng.randint(2, 5 if ndim < 3 else 3) for _ in range(ndim))
+    if minsize:         # datasets with enough elements for many-way combinations whose operands select different elements
+        shape = {1: (rng.randint(minsize, minsize + 6),), 2: (rng.randint(3, 5), rng.randint(-(-minsize // 3), 8)),
+                 3: (2, rng.randint(2, 3), rng.randint(-(-minsize // 4), 6))}[ndim]
     n = int(np.prod(shape))
     x = np.array([rng.choice([-2.0, -1.0, 0.0, 0.5, 1.0, 2.0, 3.0, 4.0, 7.0]) for _ in range(n)])
     for _ in range(rng.randint(0, 2)):
@@ -220,27 +228,68 @@ def random_spec(rng, nleaves, depth):
     return ('multi', [random_spec(rng, nleaves, depth - 1) for _ in range(rng.randint(1, 6))])
 
 
+OPFN = {'and': operator.and_, 'or': operator.or_, 'xor': operator.xor}
+NPOP = {'and': np.logical_and, 'or': np.logical_or, 'xor': np.logical_xor}
+OPCODE = {'and': 1, 'or': 2, 'xor': 3}
+EMPTY_LEAF = 999        # leaf index of the empty selection SubsetState() that combine_multiple([]) returns
+VIA = ['subset', 'group', 'group-state']
+
+
+def random_spec2(rng, nleaves, depth, top=True):
+    """random_spec plus the other public ways of building a selection:
+       ('cm', op, [operands])     glue.core.subset.combine_multiple(list of states, operator.and_/or_/xor), 0..20 operands
+       ('via', how, op, a[, b])   the operators of Subset / SubsetGroup objects (Subset.__and__ -> _combine, SubsetGroup.__and__), op in and/or/xor/not
+       ('multi', [...])           MultiOrState with up to 12 children"""
+    if depth == 0 or rng.random() < 0.15:
+        return ('leaf', rng.randrange(nleaves))
+    k = rng.random()
+    if k < 0.34:
+        op = rng.choice(['and', 'or', 'xor'])
+        n = rng.choice([0, 1, 2, 3, 4, 5, 6, 6, 7, 8, 9, 10, 10, 11, 12, 13, 14, 15, 17, 20]) if top else rng.choice([0, 1, 2, 3, 4, 5, 6, 7])
+        if n == 0 and op == 'and':
+            op = 'or'       # the property says nothing about an `and` of no operand; it is asked at the root only (stream combine_direct)
+        sub = (lambda: random_spec2(rng, nleaves, depth - 1, False)) if n <= 6 else \
+              (lambda: ('leaf', rng.randrange(nleaves)) if rng.random() < 0.8 else random_spec2(rng, nleaves, min(depth - 1, 1), False))
+        return ('cm', op, [sub() for _ in range(n)])
+    if k < 0.48:
+        return ('via', rng.choice(VIA), rng.choice(['and', 'or', 'xor']), random_spec2(rng, nleaves, depth - 1, False), random_spec2(rng, nleaves, depth - 1, False))
+    if k < 0.56:
+        return ('via', rng.choice(VIA[:2]), 'not', random_spec2(rng, nleaves, depth - 1, False))
+    if k < 0.66:
+        return ('multi', [('leaf', rng.randrange(nleaves)) if rng.random() < 0.7 else random_spec2(rng, nleaves, min(depth - 1, 1), False)
+                          for _ in range(rng.randint(7, 12))])
+    if k < 0.90:
+        return (rng.choice(['and', 'or', 'xor']), random_spec2(rng, nleaves, depth - 1, False), random_spec2(rng, nleaves, depth - 1, False))
+    return ('not', random_spec2(rng, nleaves, depth - 1, False))
+
+
+def spec_kids(s):
+    k = s[0]
+    if k in ('leaf', 'empty'):
+        return []
+    if k == 'multi':
+        return list(s[1])
+    if k == 'cm':
+        return list(s[2])
+    if k == 'via':
+        return list(s[3:])
+    return list(s[1:])
+
+
 def spec_depth(s):
-    if s[0] == 'leaf':
-        return 0
-    if s[0] == 'multi':
-        return 1 + max(spec_depth(c) for c in s[1])
-    return 1 + max(spec_depth(c) for c in s[1:])
+    ks = spec_kids(s)
+    return 0 if s[0] in ('leaf', 'empty') else 1 + max([spec_depth(c) for c in ks] or [0])
 
 
 def spec_size(s):
-    if s[0] == 'leaf':
-        return 1
-    if s[0] == 'multi':
-        return 1 + sum(spec_size(c) for c in s[1])
-    return 1 + sum(spec_size(c) for c in s[1:])
+    return 1 + sum(spec_size(c) for c in spec_kids(s))
 
 
 def spec_ops(s, out=None):
     out = set() if out is None else out
-    if s[0] != 'leaf':
-        out.add(s[0])
-        for c in (s[1] if s[0] == 'multi' else s[1:]):
+    if s[0] not in ('leaf', 'empty'):
+        out.add(s[0] if s[0] not in ('cm', 'via') else ('combine_multiple' if s[0] == 'cm' else 'via-' + s[1]))
+        for c in spec_kids(s):
             spec_ops(c, out)
     return out
 
@@ -250,7 +299,7 @@ def spec_leaves(s, out=None):
     if s[0] == 'leaf':
         out.add(s[1])
     else:
-        for c in (s[1] if s[0] == 'multi' else s[1:]):
+        for c in spec_kids(s):
             spec_leaves(c, out)
     return out
 
@@ -258,17 +307,57 @@ def spec_leaves(s, out=None):
 def spec_json(s):
     if s[0] == 'leaf':
         return ['leaf', s[1]]
+    if s[0] == 'empty':
+        return ['empty']
     if s[0] == 'multi':
         return ['multi', [spec_json(c) for c in s[1]]]
+    if s[0] == 'cm':
+        return ['cm', s[1], [spec_json(c) for c in s[2]]]
+    if s[0] == 'via':
+        return ['via', s[1], s[2]] + [spec_json(c) for c in s[3:]]
     return [s[0]] + [spec_json(c) for c in s[1:]]
 
 
 def spec_from_json(j):
     if j[0] == 'leaf':
         return ('leaf', j[1])
+    if j[0] == 'empty':
+        return ('empty',)
     if j[0] == 'multi':
         return ('multi', [spec_from_json(c) for c in j[1]])
+    if j[0] == 'cm':
+        return ('cm', j[1], [spec_from_json(c) for c in j[2]])
+    if j[0] == 'via':
+        return ('via', j[1], j[2]) + tuple(spec_from_json(c) for c in j[3:])
     return (j[0],) + tuple(spec_from_json(c) for c in j[1:])
+
+
+def has_new(s):
+    """does the spec use one of the entry points whose expected structure is the model's (combine_multiple, Subset / SubsetGroup operators)?"""
+    return s[0] in ('cm', 'via') or any(has_new(c) for c in spec_kids(s))
+
+
+def canon(s):
+    """the tree of and/or/xor/not/n-ary-or objects the spec is expected to produce: combine_multiple = the LEFT fold of the binary
+    operator over the operands (the operand itself for one operand, the empty SubsetState() for none)"""
+    k = s[0]
+    if k in ('leaf', 'empty'):
+        return s
+    if k == 'multi':
+        return ('multi', [canon(c) for c in s[1]])
+    if k == 'cm':
+        ks = [canon(c) for c in s[2]]
+        if not ks:
+            return ('empty',)
+        acc = ks[0]
+        for c in ks[1:]:
+            acc = (s[1], acc, c)
+        return acc
+    if k == 'via':
+        if s[2] == 'not':
+            return ('not', canon(s[3]))
+        return (s[2], canon(s[3]), canon(s[4]))
+    return (k,) + tuple(canon(c) for c in s[1:])
 
 
 def build(spec, leaves):
@@ -285,6 +374,35 @@ def build(spec, leaves):
         return build(spec[1], leaves) ^ build(spec[2], leaves)
     if k == 'not':
         return ~build(spec[1], leaves)
+    if k == 'cm':
+        from glue.core.subset import combine_multiple
+        operands = [build(c, leaves) for c in spec[2]]
+        given = list(operands)
+        out = combine_multiple(operands, OPFN[spec[1]])
+        if len(operands) != len(given) or any(a is not b for a, b in zip(operands, given)):
+            raise OperandsAltered('combine_multiple changed the list of operands it was given')
+        return out
+    if k == 'via':
+        from glue.core.subset import Subset
+        from glue.core.subset_group import SubsetGroup
+        how, op = spec[1], spec[2]
+
+        def holder(state, second=False):
+            if how == 'group-state' and second:
+                return state                      # SubsetGroup.__and__(state): `other.subset_state` of a state is the state
+            h = Subset(None) if how == 'subset' else SubsetGroup()
+            h.subset_state = state
+            return h
+        a = holder(build(spec[3], leaves))
+        if op == 'not':
+            r = ~a
+        else:
+            b = holder(build(spec[4], leaves), True)
+            r = OPFN[op](a, b)
+        return r.subset_state                     # a Subset for Subset operands, the state itself for groups
+    if k == 'empty':
+        from glue.core.subset import SubsetState
+        return SubsetState()
     return MultiOrState([build(c, leaves) for c in spec[1]])
 
 
@@ -301,6 +419,20 @@ def np_eval(spec, masks):
         return np.logical_xor(np_eval(spec[1], masks), np_eval(spec[2], masks))
     if k == 'not':
         return np.logical_not(np_eval(spec[1], masks))
+    if k == 'empty':
+        return np.zeros(masks['shape'] if 'shape' in masks else np.shape(next(iter(masks.values()))), dtype=bool)
+    if k == 'cm':       # the elementwise reduction of the operands' masks (no operand: nothing is selected)
+        ms = [np_eval(c, masks) for c in spec[2]]
+        if not ms:
+            return np_eval(('empty',), masks)
+        out = ms[0]
+        for m in ms[1:]:
+            out = NPOP[spec[1]](out, m)
+        return out
+    if k == 'via':
+        if spec[2] == 'not':
+            return np.logical_not(np_eval(spec[3], masks))
+        return NPOP[spec[2]](np_eval(spec[3], masks), np_eval(spec[4], masks))
     out = np.zeros(np.shape(np_eval(spec[1][0], masks)), dtype=bool)
     for c in spec[1]:
         out = np.logical_or(out, np_eval(c, masks))
@@ -331,6 +463,25 @@ class Mismatch(Exception):
     pass
 
 
+class NewMismatch(Mismatch):
+    """the object built through combine_multiple / the Subset operators has not the structure the model expects: a disagreement
+    between model and implementation (the masks are judged separately, by the oracle)"""
+
+
+class OperandsAltered(Exception):
+    pass
+
+
+def wire_c(spec, real, ids, cidx, nodes=None):
+    """wire() against the structure the spec is expected to produce"""
+    try:
+        return wire(canon(spec), real, ids, cidx, nodes)
+    except Mismatch as e:
+        if has_new(spec):
+            raise NewMismatch(str(e))
+        raise
+
+
 def wire(spec, real, ids, cidx, nodes=None):
     """parallel walk of the spec and of the real state object -> wire tree with identities and class indices"""
     k = spec[0]
@@ -341,6 +492,10 @@ def wire(spec, real, ids, cidx, nodes=None):
         if hasattr(real, 'state1') or hasattr(real, 'states'):
             raise Mismatch('leaf %r expected, found %s' % (spec, name))
         return (10, [ids(real), cidx[name], spec[1]])
+    if k == 'empty':
+        if name != 'SubsetState':
+            raise Mismatch('the empty SubsetState expected, found %s' % name)
+        return (10, [ids(real), cidx[name], EMPTY_LEAF])
     if name != KIND_CLASS[k]:
         raise Mismatch('%s expected, found %s' % (KIND_CLASS[k], name))
     if k in ('and', 'or', 'xor'):
@@ -378,11 +533,11 @@ def err_name(e):
 
 # ------------------------------------------------------------------ one tree case
 class World:
-    def __init__(self, seed, stream, i, ndim=None, nleaves=None, kinds=None):
+    def __init__(self, seed, stream, i, ndim=None, nleaves=None, kinds=None, minsize=None, nmasks=0, dense=False):
         self.seed, self.stream, self.i = seed, stream, i
         rng = case_rng(seed, stream, i, 'world')
         self.rng = rng
-        self.d = make_data(rng, ndim)
+        self.d = make_data(rng, ndim, minsize=minsize)
         self.views = make_views(rng, self.d)
         self.vtag = {}
         for tg, v, hk in container_views(self.d):
@@ -406,6 +561,19 @@ class World:
                 continue
             self.leaf_kinds.append(kind)
             self.leaves.append(s)
+        # operands for many-way combinations: each selects few elements (dense: all but a few), at least one (not all), so that
+        # an operand that is lost or used twice shows in the result of an or / xor (and)
+        from glue.core.subset import MaskSubsetState, ElementSubsetState
+        size = self.d.size
+        for j in range(nmasks):
+            m = np.zeros(size, dtype=bool)
+            m[rng.sample(range(size), rng.choice([1, 1, 2, 3]))] = True
+            if j % 4 == 3 and not dense:
+                self.leaf_kinds.append('Element')
+                self.leaves.append(ElementSubsetState(np.flatnonzero(m).tolist(), data=self.d))
+            else:
+                self.leaf_kinds.append('MaskDense' if dense else 'MaskSparse')
+                self.leaves.append(MaskSubsetState((~m if dense else m).reshape(self.d.shape), list(self.d.pixel_component_ids)))
 
 
 def run_tree_case(R, W, spec, requests, cidx, final_check=True):
@@ -456,8 +624,9 @@ def run_tree_case(R, W, spec, requests, cidx, final_check=True):
                 out = via.to_mask(view=v)
         except Exception as e:
             out = e
-        w = wire(target_spec, target_obj, ids, cidx)
-        reqs_wire.append((0, [0, vi, 1 if hk else 0, form, w]))
+        if not res.get('nomodel'):
+            w = wire(target_spec, target_obj, ids, cidx)
+            reqs_wire.append((0, [0, vi, 1 if hk else 0, form, w]))
         trace.append((out, expected, vi, (target_spec, via if isinstance(via, str) else 'subset', form)))
         return out
 
@@ -473,8 +642,15 @@ def run_tree_case(R, W, spec, requests, cidx, final_check=True):
         res['oracle'].append('building the selection raised %s: %s' % (err_name(e), e))
         return res
     nodes = []
+    new_kinds = has_new(spec)
     try:
-        wire(spec, root, ids, cidx, nodes)
+        wire_c(spec, root, ids, cidx, nodes)
+    except NewMismatch as e:
+        # built through combine_multiple / Subset operators and not the tree of objects the model expects: model and implementation
+        # disagree.  Whether the selection is RIGHT is the oracle's business: the requests go to the root, judged by the masks alone.
+        res['corr'].append('structure of the selection built through combine_multiple / Subset operators: %s' % e)
+        res['nomodel'] = True
+        nodes = [(spec, root)]
     except Mismatch as e:
         res['oracle'].append('structure of the combined selection: %s' % e)
         return res
@@ -487,9 +663,14 @@ def run_tree_case(R, W, spec, requests, cidx, final_check=True):
             vi = 0
         if tgt[0] == 'part':
             tspec, tobj = ('leaf', tgt[1]), W.leaves[tgt[1]]
+        elif new_kinds:
+            # which part a sub-state of an object built by combine_multiple / the Subset operators stands for is the model's
+            # business (an operand order the masks do not depend on must not look like a wrong mask): the oracle judges the root
+            tspec, tobj = nodes[0]
         else:
             tspec, tobj = nodes[tgt[1] % len(nodes)]
         masks = {n: lm[(n, vi)] for n in used_leaves}
+        masks['shape'] = view_shape_of(d, W.views[vi][0])
         expected = np_eval(tspec, masks)
         if via == 'subset':
             if sub is None:
@@ -531,8 +712,10 @@ def run_tree_case(R, W, spec, requests, cidx, final_check=True):
         if snap(s) != snaps[n]:
             res['oracle'].append('the definition of part %d (%s) changed' % (n, W.leaf_kinds[n]))
     # --- model input
-    lmt = (0, [(0, [n, 0, vi, bits(m)]) for (n, vi), m in sorted(lm.items())])
-    res['line'] = enc((2, [lmt, (0, reqs_wire)]))
+    lmt = [(0, [n, 0, vi, bits(m)]) for (n, vi), m in sorted(lm.items())]
+    lmt += [(0, [EMPTY_LEAF, 0, vi, bits(np.zeros(view_shape_of(d, W.views[vi][0]), dtype=bool))]) for vi in usable_views]
+    if not res.get('nomodel'):
+        res['line'] = enc((2, [(0, lmt), (0, reqs_wire)]))
     # identity pattern of the returned arrays
     seen = {}
     pat = []
@@ -615,12 +798,15 @@ def shrink(R, W, spec, requests, cidx, pred):
         improved = False
         s, rq = best
         cands = []
-        if s[0] != 'leaf':
-            for c in (s[1] if s[0] == 'multi' else s[1:]):
+        if s[0] not in ('leaf', 'empty'):
+            for c in spec_kids(s):
                 cands.append((c, rq))
             if s[0] == 'multi' and len(s[1]) > 1:
                 for j in range(len(s[1])):
                     cands.append((('multi', s[1][:j] + s[1][j + 1:]), rq))
+            if s[0] == 'cm' and len(s[2]) > 1:
+                for j in range(len(s[2])):
+                    cands.append((('cm', s[1], s[2][:j] + s[2][j + 1:]), rq))
         for j in range(len(rq)):
             cands.append((s, rq[:j] + rq[j + 1:]))
         for c in cands:
@@ -640,12 +826,13 @@ def shrink(R, W, spec, requests, cidx, pred):
 
 
 def rebuild_world(W):
-    return World(W.seed, W.stream, W.i, ndim=getattr(W, 'ndim_arg', None), nleaves=getattr(W, 'nleaves_arg', None), kinds=getattr(W, 'kinds_arg', None))
+    return new_world(W.seed, W.stream, W.i, ndim=getattr(W, 'ndim_arg', None), nleaves=getattr(W, 'nleaves_arg', None), kinds=getattr(W, 'kinds_arg', None),
+                     **getattr(W, 'extra_args', {}))
 
 
-def new_world(seed, stream, i, ndim=None, nleaves=None, kinds=None):
-    W = World(seed, stream, i, ndim=ndim, nleaves=nleaves, kinds=kinds)
-    W.ndim_arg, W.nleaves_arg, W.kinds_arg = ndim, nleaves, kinds
+def new_world(seed, stream, i, ndim=None, nleaves=None, kinds=None, **extra):
+    W = World(seed, stream, i, ndim=ndim, nleaves=nleaves, kinds=kinds, **extra)
+    W.ndim_arg, W.nleaves_arg, W.kinds_arg, W.extra_args = ndim, nleaves, kinds, extra
     return W
 
 
@@ -683,7 +870,7 @@ def process_cases(R, cases, cidx, stream):
             R.count(('skip', W.stream, W.i), nontrivial=False, stream=stream, outcome='skipped')
             continue
         ops = spec_ops(spec)
-        nontriv = spec[0] != 'leaf'
+        nontriv = spec[0] not in ('leaf', 'empty')
         R.count((stream, W.seed if stream != 'exhaustive' else 0, W.i if stream != 'exhaustive' else 0, repr(spec_json(spec)), tuple(W.leaf_kinds), tuple(W.d.shape),
                  repr(requests)),
                 nontrivial=nontriv, stream=stream, depth=spec_depth(spec), size=min(spec_size(spec), 40) // 5 * 5, ndim=W.d.ndim,
@@ -695,7 +882,7 @@ def process_cases(R, cases, cidx, stream):
             R.hist['operator'][o] += 1
         if res['oracle']:
             case = case_desc(W, spec, requests)
-            if stream == 'random' and R.hist['shrunk']['cases'] < 3:
+            if stream in ('random', 'combine') and R.hist['shrunk']['cases'] < 3:
                 R.hist['shrunk']['cases'] += 1
                 try:
                     s2, r2 = shrink(R, W, spec, requests, cidx, lambda r: bool(r.get('oracle')))
@@ -708,6 +895,8 @@ def process_cases(R, cases, cidx, stream):
                 except Exception:
                     pass
             R.fail('oracle', case, res['oracle'][:4])
+        if res.get('corr'):
+            R.fail('correspondence', case_desc(W, spec, requests), res['corr'][:3])
         if res.get('line') is not None and R.model_available:
             out = next(outs)
             bad = compare_model(res, out)
@@ -877,6 +1066,282 @@ def stream_containers(R, cidx):
                    '((0,1),(1,0)) / [[0,1],[1,0]] / ([0,1],[1,0]) in both orders, through Data.get_mask, state.to_mask, Subset.to_mask')
 
 
+# ---- combine_multiple called directly: every number of operands 0..20 with every operator
+def combine_direct_world(seed, i):
+    n, op = i % 21, ['and', 'or', 'xor'][(i // 21) % 3]
+    nd = case_rng(seed, 'combine_direct', i, 'nd').choice([1, 2, 2, 3])
+    return n, op, new_world(seed, 'combine_direct', i, ndim=nd, minsize=14, nmasks=max(n, 2), dense=(op == 'and'))
+
+
+def run_combine_case(R, seed, i, cidx, explicit=None):
+    """combine_multiple(list of n states, operator) on real states: the mask of the result against the elementwise reduction of the masks
+    of the operands (oracle), the object it returns against the model's (generated) combine_multiple (correspondence)"""
+    from glue.core.subset import combine_multiple
+    n, op, W = combine_direct_world(seed, i)
+    d = W.d
+    res = {'oracle': [], 'line': None, 'corr': []}
+    rng = case_rng(seed, 'combine_direct', i, 'operands')
+    nl = len(W.leaves)
+    first_mask = nl - max(n, 2)
+    if explicit is None:
+        specs = []
+        for j in range(n):
+            k = rng.random()
+            if k < 0.7:
+                specs.append(('leaf', first_mask + j))
+            elif k < 0.88:
+                specs.append(('leaf', rng.randrange(nl)))
+            else:
+                specs.append(random_spec2(rng, nl, 1, False))
+    else:
+        op = explicit['op']
+        specs = [spec_from_json(j) for j in explicit['operands']]
+        n = len(specs)
+    desc = {'stream': 'combine_direct', 'seed': seed, 'i': i, 'op': op, 'operands': [spec_json(c) for c in specs], 'parts': W.leaf_kinds, 'shape': list(d.shape)}
+    lm = {}
+    try:
+        for k in sorted(set().union(*[spec_leaves(c) for c in specs]) if specs else []):
+            m = W.leaves[k].to_mask(d)
+            if not isinstance(m, np.ndarray) or m.dtype != bool or m.shape != d.shape:
+                raise TypeError
+            lm[k] = np.array(m, copy=True)
+    except Exception:
+        res['skip'] = 'a part cannot be evaluated'
+        return res, W, desc
+    snaps = [snap(c) for c in W.leaves]
+    ids = Ids()
+    masks = dict(lm)
+    masks['shape'] = d.shape
+    try:
+        objs = [build(c, W.leaves) for c in specs]
+    except Exception as e:
+        res['oracle'].append('building an operand raised %s: %s' % (err_name(e), e))
+        return res, W, desc
+    nomodel = False
+    wires = []
+    for c, o in zip(specs, objs):
+        try:
+            wires.append(wire_c(c, o, ids, cidx))
+        except NewMismatch as e:
+            res['corr'].append('structure of an operand: %s' % e)
+            nomodel = True
+    operand_masks = [np_eval(c, masks) for c in specs]
+    try:
+        before = [np.array(o.to_mask(d), copy=True) for o in objs]
+    except Exception as e:
+        res['oracle'].append('evaluating an operand raised %s: %s' % (err_name(e), e))
+        return res, W, desc
+    for j, (b, m) in enumerate(zip(before, operand_masks)):
+        if b.shape != m.shape or not np.array_equal(b, m):
+            res['oracle'].append('operand %d %r: mask %s, Boolean combination of the parts %s' % (j, spec_json(specs[j]), b.astype(int).ravel().tolist(), m.astype(int).ravel().tolist()))
+            return res, W, desc
+    given = list(objs)
+    try:
+        root = combine_multiple(objs, OPFN[op])
+        got = d.get_mask(root)
+        got2 = root.to_mask(d)
+    except Exception as e:
+        res['oracle'].append('combine_multiple of %d operands / its evaluation raised %s: %s' % (n, err_name(e), e))
+        return res, W, desc
+    if n == 0:
+        expected = np.zeros(d.shape, dtype=bool) if op != 'and' else None     # an `and` of nothing: the property does not say
+    else:
+        expected = operand_masks[0]
+        for m in operand_masks[1:]:
+            expected = NPOP[op](expected, m)
+    for g in (got, got2):
+        if not isinstance(g, np.ndarray) or g.dtype != bool or g.shape != d.shape:
+            res['oracle'].append('combine_multiple(%d operands, %s): the mask is not a boolean array of the shape of the data' % (n, op))
+            break
+        if expected is not None and not np.array_equal(g, expected):
+            res['oracle'].append('combine_multiple(%d operands, %s): mask %s, elementwise %s of the masks of the operands %s' % (
+                n, op, g.astype(int).ravel().tolist(), op, expected.astype(int).ravel().tolist()))
+            break
+    if len(objs) != len(given) or any(a is not b for a, b in zip(objs, given)):
+        res['oracle'].append('combine_multiple altered the list of operands')
+    for c, o, m in zip(specs, objs, before):
+        try:
+            if not np.array_equal(o.to_mask(d), m):
+                res['oracle'].append('an operand of combine_multiple selects something else afterwards')
+                break
+        except Exception as e:
+            res['oracle'].append('an operand of combine_multiple cannot be evaluated afterwards: %s' % err_name(e))
+            break
+    for k, c in enumerate(W.leaves):
+        if snap(c) != snaps[k]:
+            res['oracle'].append('part %d (%s) was altered by combine_multiple' % (k, W.leaf_kinds[k]))
+    nxt = len(ids.m) + 1
+    fresh = {}
+    leaves_real = []
+    cr = canon_real(tree_of(root), ids, fresh, d, leaves_real)
+    lmt = (0, [(0, [k, 0, 0, bits(m)]) for k, m in sorted(lm.items())] + [(0, [EMPTY_LEAF, 0, 0, bits(np.zeros(d.shape, dtype=bool))])])
+    if not nomodel:
+        res['line'] = enc((6, [lmt, 0, 0, OPCODE[op], EMPTY_LEAF, (0, wires), nxt]))
+    res['impl'] = {'tree': cr, 'mask': np.asarray(got).astype(int).ravel().tolist(),
+                   'leaf_masks': [np.asarray(l.to_mask(d)).astype(int).ravel().tolist() for l in leaves_real], 'nxt': nxt}
+    res['lm'] = {k: m.astype(int).ravel().tolist() for k, m in lm.items()}
+    res['lm'][EMPTY_LEAF] = [0] * d.size
+    res['nops'] = n
+    res['and_of_nothing'] = (n == 0 and op == 'and')
+    return res, W, desc
+
+
+def stream_combine_direct(R, cidx):
+    n = R.pick(126, 630)
+    items = []
+    for i in range(n):
+        clear_all_caches()
+        try:
+            res, W, desc = run_combine_case(R, R.seed, i, cidx)
+        except Exception as e:
+            res, W, desc = {'oracle': ['running the case raised %s: %s' % (err_name(e), e)], 'line': None}, None, {'stream': 'combine_direct', 'seed': R.seed, 'i': i}
+        items.append((res, W, desc))
+    lines = [r['line'] for r, _, _ in items if r.get('line')]
+    outs = iter(R.model(lines)) if (lines and R.model_available) else iter([])
+    for res, W, desc in items:
+        if res.get('skip'):
+            R.count(('combine-skip', desc['i']), nontrivial=False, stream='combine_direct', outcome='skipped')
+            continue
+        R.count(('combine_direct', R.seed, desc['i'], desc.get('op'), repr(desc.get('operands'))), nontrivial=res.get('nops', 0) >= 2, stream='combine_direct',
+                combine_operands=res.get('nops', 0), outcome='oracle-fail' if res['oracle'] else 'ok')
+        R.hist['operator']['combine_multiple'] += 1
+        if res['oracle']:
+            R.fail('oracle', desc, res['oracle'][:4])
+        if res.get('corr'):
+            R.fail('correspondence', desc, res['corr'][:3])
+        if res.get('line') and R.model_available:
+            bad = compare_edit(res, next(outs))
+            if bad:
+                R.fail('correspondence', desc, bad)
+    R.sample({'combine_multiple case': {'op': 'xor', 'operands': [['leaf', 3], ['leaf', 4], ['via', 'subset', 'and', ['leaf', 0], ['leaf', 5]], ['leaf', 6], ['leaf', 7], ['leaf', 8]]}})
+    R.stream('combine_direct', cases=len(items), exhaustive=False,
+             bound='glue.core.subset.combine_multiple(list, operator.and_/or_/xor) with EVERY number of operands 0..20 for every operator (%d worlds each): operands select 1-3 '
+                   'elements each (all but 1-3 for `and`) of a dataset of >= 14 elements (Mask / Element states), some are ordinary parts or small trees' % (n // 63))
+
+
+def run_via_case(R, seed, i, cidx):
+    """one operator of Subset / SubsetGroup objects on existing states: the object it returns against the translated Subset.__and__ ... (model tag 7)"""
+    W = new_world(seed, 'via_direct', i, minsize=8, nmasks=3)
+    rng = case_rng(seed, 'via_direct', i, 'ops')
+    d = W.d
+    how = VIA[i % 3]
+    op = ['and', 'or', 'xor', 'not'][(i // 3) % 4]
+    if how == 'group-state' and op == 'not':
+        how = 'group'
+    nl = len(W.leaves)
+    a = random_spec2(rng, nl, rng.choice([0, 0, 1, 2]), False)
+    b = random_spec2(rng, nl, rng.choice([0, 0, 1, 2]), False)
+    spec = ('via', how, op, a) if op == 'not' else ('via', how, op, a, b)
+    desc = {'stream': 'via_direct', 'seed': seed, 'i': i, 'spec': spec_json(spec), 'parts': W.leaf_kinds, 'shape': list(d.shape)}
+    res = {'oracle': [], 'line': None, 'corr': [], 'desc': desc}
+    try:
+        lm = {k: np.array(W.leaves[k].to_mask(d), copy=True) for k in spec_leaves(spec)}
+    except Exception:
+        res['skip'] = True
+        return res
+    lm['shape'] = d.shape
+    # operands first (existing objects with identities), then the operator
+    ids = Ids()
+    from glue.core.subset import Subset
+    from glue.core.subset_group import SubsetGroup
+    try:
+        oa = build(a, W.leaves)
+        ob = build(b, W.leaves) if op != 'not' else None
+        wa = wire_c(a, oa, ids, cidx)
+        wb = wire_c(b, ob, ids, cidx) if ob is not None else None
+    except NewMismatch as e:
+        res['corr'].append('structure of an operand: %s' % e)
+        return res
+    except Exception as e:
+        res['oracle'].append('building an operand raised %s: %s' % (err_name(e), e))
+        return res
+    nxt = len(ids.m) + 1
+
+    def holder(state, second=False):
+        if how == 'group-state' and second:
+            return state
+        h = Subset(None) if how == 'subset' else SubsetGroup()
+        h.subset_state = state
+        return h
+    try:
+        ha = holder(oa)
+        r = (~ha) if op == 'not' else OPFN[op](ha, holder(ob, True))
+        root = r.subset_state
+        got = d.get_mask(root)
+    except Exception as e:
+        res['oracle'].append('%s of %s objects / its evaluation raised %s: %s' % (op, how, err_name(e), e))
+        return res
+    if how == 'subset' and (not isinstance(r, Subset) or r is ha):
+        res['oracle'].append('the operator of Subset objects did not return a new Subset')
+    exp = np_eval(spec, lm)
+    if not isinstance(got, np.ndarray) or got.shape != d.shape or got.dtype != bool or not np.array_equal(got, exp):
+        res['oracle'].append('%s of %s objects: mask %s, Boolean combination of the parts %s' % (op, how, np.asarray(got).astype(int).ravel().tolist(), exp.astype(int).ravel().tolist()))
+    if ha.subset_state is not oa or not np.array_equal(oa.to_mask(d), np_eval(a, lm)):
+        res['oracle'].append('the operator altered its first operand')
+    cr = canon_real(tree_of(root), ids, {}, d, [])
+    res['line'] = enc((7, [0 if how == 'subset' else 1, {'and': 1, 'or': 2, 'xor': 3, 'not': 4}[op], wa, (0, [wb] if wb is not None else []), nxt]))
+    res['impl'] = (cr, nxt)
+    return res
+
+
+def stream_via_direct(R, cidx):
+    n = R.pick(120, 1200)
+    items = []
+    for i in range(n):
+        clear_all_caches()
+        try:
+            items.append(run_via_case(R, R.seed, i, cidx))
+        except Exception as e:
+            items.append({'oracle': ['running the case raised %s: %s' % (err_name(e), e)], 'line': None, 'desc': {'stream': 'via_direct', 'seed': R.seed, 'i': i}})
+    lines = [r['line'] for r in items if r.get('line')]
+    outs = iter(R.model(lines)) if (lines and R.model_available) else iter([])
+    for res in items:
+        desc = res['desc']
+        if res.get('skip'):
+            R.count(('via-skip', desc['i']), nontrivial=False, stream='via_direct', outcome='skipped')
+            continue
+        R.count(('via_direct', R.seed, desc['i'], repr(desc.get('spec'))), nontrivial=True, stream='via_direct', outcome='oracle-fail' if res['oracle'] else 'ok')
+        if res['oracle']:
+            R.fail('oracle', desc, res['oracle'][:4])
+        if res.get('corr'):
+            R.fail('correspondence', desc, res['corr'][:3])
+        if res.get('line') and R.model_available:
+            out = next(outs)
+            if is_err(out):
+                R.fail('correspondence', desc, 'model rejected the case / the translated operator raises: %r' % (out,))
+                continue
+            cr, nxt = res['impl']
+            cm = canon_model(kids(out)[0], nxt, {}, [])
+            if cm != cr:
+                R.fail('correspondence', desc, {'model': repr(cm), 'impl': repr(cr)})
+    R.stream('via_direct', cases=len(items), exhaustive=False,
+             bound='every operator (and/or/xor/not) of Subset objects (-> _combine), SubsetGroup objects, SubsetGroup with a state, on trees of depth <= 2: '
+                   'the returned object against the translated source (model tag 7), its mask against the Boolean combination of the parts')
+
+
+def combine_tree_world(seed, i):
+    nd = case_rng(seed, 'combine', i, 'nd').choice([1, 2, 2, 3])
+    return new_world(seed, 'combine', i, ndim=nd, minsize=12, nmasks=8, dense=(i % 3 == 0))
+
+
+def stream_combine(R, cidx):
+    """trees that use the other public entry points (combine_multiple, Subset / SubsetGroup operators, wide MultiOrStates) anywhere, with request histories"""
+    n = R.pick(260, 2600)
+    cases = []
+    for i in range(n):
+        W = combine_tree_world(R.seed, i)
+        rng = case_rng(R.seed, 'combine', i, 'tree')
+        spec = random_spec2(rng, len(W.leaves), rng.choice([1, 1, 2, 2, 3]))
+        used = sorted(spec_leaves(spec)) or [0]
+        reqs = random_requests(rng, spec, used, len(W.views), rng.randint(2, 6))
+        cases.append((W, spec, reqs))
+    for k in range(0, len(cases), 200):
+        process_cases(R, cases[k:k + 200], cidx, 'combine')
+    R.stream('combine', cases=len(cases), exhaustive=False,
+             bound='random trees to depth 3 whose nodes are also combine_multiple (0-20 operands at the root, 0-7 below), the operators of Subset / SubsetGroup objects '
+                   '(Subset.__and__ -> _combine, SubsetGroup.__and__ with a group or a state), MultiOrState with 7-12 children; 2-6 requests; expected structure = the left fold')
+
+
 # ---- edit modes on real subset groups
 def tree_of(real):
     """real state object -> generic tree (kind, obj, kids) by duck typing"""
@@ -931,12 +1396,18 @@ def mode_np(m, old, new):
     return np.logical_and(old, np.logical_not(new))
 
 
-def run_edit_case(R, seed, i, cidx, explicit=None):
+def run_edit_case(R, seed, i, cidx, explicit=None, flavour=0):
+    """flavour 1: the operands are built through combine_multiple / Subset and SubsetGroup operators / wide MultiOrStates as well"""
     from glue.core import DataCollection
     from glue.core import edit_subset_mode as E
     modefn = {'replace': E.ReplaceMode, 'and': E.AndMode, 'or': E.OrMode, 'xor': E.XorMode, 'andnot': E.AndNotMode, 'new': E.NewMode}
-    W = new_world(seed, 'edit', i)
-    res = {'oracle': [], 'line': None}
+    if flavour:
+        W = new_world(seed, 'edit', i, minsize=10, nmasks=6, dense=(i % 3 == 0))
+        random_spec = random_spec2
+    else:
+        W = new_world(seed, 'edit', i)
+        random_spec = globals()['random_spec']
+    res = {'oracle': [], 'line': None, 'corr': []}
     if not W.leaves:
         res['skip'] = 'no parts'
         return res, W, None
@@ -956,6 +1427,9 @@ def run_edit_case(R, seed, i, cidx, explicit=None):
         two_groups = explicit['two_groups']
     desc = {'stream': 'edit', 'seed': seed, 'i': i, 'spec0': spec_json(spec0) if spec0 else None,
             'ops': [[m, spec_json(s)] for m, s in ops], 'two_groups': two_groups, 'parts': W.leaf_kinds, 'shape': list(d.shape)}
+    if flavour:
+        desc['flavour'] = flavour
+    nomodel = False
     # masks of the parts (full view only)
     lm = {}
     try:
@@ -978,7 +1452,11 @@ def run_edit_case(R, seed, i, cidx, explicit=None):
         g = dc.new_subset_group(subset_state=s0)
         groups.append(g)
         esm.edit_subset = [g] + ([dc.new_subset_group(subset_state=s0.copy())] if two_groups else [])
-        wire_s0 = wire(spec0, s0, ids, cidx)
+        try:
+            wire_s0 = wire_c(spec0, s0, ids, cidx)
+        except NewMismatch as e:
+            res['corr'].append('structure of the initial selection built through combine_multiple / Subset operators: %s' % e)
+            nomodel = True
         cur_mask = np_eval(spec0, lm)
     else:
         cur_mask = None
@@ -987,7 +1465,12 @@ def run_edit_case(R, seed, i, cidx, explicit=None):
     old_group_masks = []
     for (m, snew) in ops:
         new_state = build(snew, W.leaves)
-        wnew = wire(snew, new_state, ids, cidx)
+        try:
+            wnew = None if nomodel else wire_c(snew, new_state, ids, cidx)
+        except NewMismatch as e:
+            res['corr'].append('structure of a new selection built through combine_multiple / Subset operators: %s' % e)
+            nomodel = True
+            wnew = None
         before_groups = list(dc.subset_groups)
         esm.mode = modefn[m]
         try:
@@ -1039,22 +1522,25 @@ def run_edit_case(R, seed, i, cidx, explicit=None):
     fresh = {}
     leaves_real = []
     cr = canon_real(tree_of(final), ids, fresh, d, leaves_real)
-    lmt = (0, [(0, [n, 0, 0, bits(m)]) for n, m in sorted(lm.items())])
-    res['line'] = enc((3, [lmt, 0, 0, wire_s0, (0, model_ops), nxt]))
+    lmt = (0, [(0, [n, 0, 0, bits(m)]) for n, m in sorted(lm.items())] + [(0, [EMPTY_LEAF, 0, 0, bits(np.zeros(d.shape, dtype=bool))])])
+    if not nomodel:
+        res['line'] = enc((3, [lmt, 0, 0, wire_s0, (0, model_ops), nxt]))
     res['impl'] = {'tree': cr, 'mask': cur_mask.astype(int).ravel().tolist(),
                    'leaf_masks': [np.asarray(l.to_mask(d)).astype(int).ravel().tolist() for l in leaves_real], 'nxt': nxt}
     res['lm'] = {n: m.astype(int).ravel().tolist() for n, m in lm.items()}
+    res['lm'][EMPTY_LEAF] = [0] * d.size
     res['nops'] = len(ops)
     return res, W, desc
 
 
 def stream_edit(R, cidx):
     n = R.pick(700, 6000)
+    n2 = R.pick(160, 1500)
     items = []
-    for i in range(n):
+    for i in list(range(n)) + list(range(1000000, 1000000 + n2)):
         clear_all_caches()
         try:
-            res, W, desc = run_edit_case(R, R.seed, i, cidx)
+            res, W, desc = run_edit_case(R, R.seed, i, cidx, flavour=1 if i >= 1000000 else 0)
         except Mismatch as e:
             res, W, desc = {'oracle': ['structure: %s' % e], 'line': None}, None, {'stream': 'edit', 'seed': R.seed, 'i': i}
         except Exception as e:
@@ -1072,6 +1558,8 @@ def stream_edit(R, cidx):
             R.hist['edit_mode'][m] += 1
         if res['oracle']:
             R.fail('oracle', desc, res['oracle'][:4])
+        if res.get('corr'):
+            R.fail('correspondence', desc, res['corr'][:3])
         if res.get('line') and R.model_available:
             out = next(outs)
             bad = compare_edit(res, out)
@@ -1079,7 +1567,8 @@ def stream_edit(R, cidx):
                 R.fail('correspondence', desc, bad)
     R.sample({'edit case': {'spec0': ['leaf', 0], 'ops': [['and', ['leaf', 1]], ['andnot', ['or', ['leaf', 0], ['leaf', 2]]], ['new', ['leaf', 1]], ['xor', ['leaf', 2]]]}})
     R.stream('edit', cases=len(items), exhaustive=False,
-             bound='1-7 mode applications (replace/and/or/xor/and-not/new) through EditSubsetMode.update on a DataCollection of 1-2 datasets, operands are trees of depth <= 2')
+             bound='1-7 mode applications (replace/and/or/xor/and-not/new) through EditSubsetMode.update on a DataCollection of 1-2 datasets, operands are trees of depth <= 2; '
+                   '%d of the cases build the operands through combine_multiple (0-20 operands) / Subset and SubsetGroup operators / MultiOrState of 7-12 children as well' % n2)
 
 
 def compare_edit(res, out):
@@ -1104,13 +1593,17 @@ def compare_edit(res, out):
 
 def stream_copy(R, cidx):
     n = R.pick(400, 4000)
+    n2 = R.pick(80, 800)
     lines, metas = [], []
-    for i in range(n):
+    for i in list(range(n)) + list(range(1000000, 1000000 + n2)):
         W = new_world(R.seed, 'copy', i)
         if not W.leaves:
             continue
         rng = case_rng(R.seed, 'copy', i, 'tree')
-        spec = random_spec(rng, len(W.leaves), rng.choice([0, 1, 2, 3, 4]))
+        if i >= 1000000:
+            spec = random_spec2(rng, len(W.leaves), rng.choice([1, 2, 3]))
+        else:
+            spec = random_spec(rng, len(W.leaves), rng.choice([0, 1, 2, 3, 4]))
         desc = {'stream': 'copy', 'seed': R.seed, 'i': i, 'spec': spec_json(spec), 'parts': W.leaf_kinds}
         d = W.d
         clear_all_caches()
@@ -1122,7 +1615,11 @@ def stream_copy(R, cidx):
         try:
             root = build(spec, W.leaves)
             ids = Ids()
-            w = wire(spec, root, ids, cidx)
+            try:
+                w = wire_c(spec, root, ids, cidx)
+            except NewMismatch as e:
+                R.fail('correspondence', desc, 'structure of the selection built through combine_multiple / Subset operators: %s' % e)
+                w = None
             before = root.to_mask(d).copy() if rng.random() < 0.5 else None
             snap_root = snap(root)
         except Exception as e:
@@ -1135,6 +1632,7 @@ def stream_copy(R, cidx):
         except Exception as e:
             R.fail('oracle', desc, 'copy()/evaluation raised %s: %s' % (err_name(e), e))
             continue
+        masks['shape'] = d.shape
         exp = np_eval(spec, masks)
         bad = []
         if got.shape != d.shape or not np.array_equal(got, exp):
@@ -1145,9 +1643,11 @@ def stream_copy(R, cidx):
             bad.append('copy() altered the original or its parts')
         if cp is root:
             bad.append('copy() returned the same object')
-        R.count(('copy', R.seed, i, repr(spec_json(spec)), tuple(W.leaf_kinds)), nontrivial=spec[0] != 'leaf', stream='copy', depth=spec_depth(spec))
+        R.count(('copy', R.seed, i, repr(spec_json(spec)), tuple(W.leaf_kinds)), nontrivial=spec[0] not in ('leaf', 'empty'), stream='copy', depth=spec_depth(spec))
         if bad:
             R.fail('oracle', desc, bad)
+        if w is None:
+            continue
         nxt = len(ids.m) + 1
         fresh = {}
         lv = []
@@ -1208,6 +1708,9 @@ def run(R):
     stream_exhaustive(R, cidx)
     stream_random(R, cidx)
     stream_containers(R, cidx)
+    stream_combine_direct(R, cidx)
+    stream_via_direct(R, cidx)
+    stream_combine(R, cidx)
     stream_edit(R, cidx)
     stream_copy(R, cidx)
     clear_all_caches()
@@ -1218,9 +1721,20 @@ def replay(R, case):
     st = case.get('stream')
     out = {'case': case}
     clear_all_caches()
-    if st in ('random', 'exhaustive', 'containers'):
+    if st == 'combine_direct':
+        try:
+            res, W, desc = run_combine_case(R, case['seed'], case['i'], cidx, explicit=case if 'operands' in case else None)
+        except Exception as e:
+            res = {'oracle': ['running the case raised %s: %s' % (err_name(e), e)]}
+        out['oracle'] = res['oracle']
+        if res.get('line') and R.model_available:
+            out['correspondence'] = compare_edit(res, R.model([res['line']])[0])
+        out['violates'] = bool(res['oracle'])
+    elif st in ('random', 'exhaustive', 'containers', 'combine'):
         if st == 'exhaustive':
             W = new_world(0, 'exhaustive', 0, ndim=2, kinds=['Inequality', 'Range', 'RoiPixel'])
+        elif st == 'combine':
+            W = combine_tree_world(case['seed'], case['i'])
         else:
             nd = case_rng(case['seed'], 'containers', case['i'], 'tree').choice([1, 2, 2, 2, 3]) if st == 'containers' else None
             W = new_world(case['seed'], st, case['i'], ndim=nd)
@@ -1238,7 +1752,7 @@ def replay(R, case):
         out['violates'] = bool(res['oracle'])
     elif st == 'edit':
         try:
-            res, W, desc = run_edit_case(R, case['seed'], case['i'], cidx, explicit=case if 'ops' in case else None)
+            res, W, desc = run_edit_case(R, case['seed'], case['i'], cidx, explicit=case if 'ops' in case else None, flavour=case.get('flavour', 0))
         except Exception as e:
             res = {'oracle': ['running the case raised %s: %s' % (err_name(e), e)]}
         out['oracle'] = res['oracle']
